@@ -5,8 +5,8 @@
    Model: Model/Introspect.v (cmd_list.py, cmd_info.py over Model/Status.v's get_status; the
    decision of Runner.select_task) -- quantified over ALL file systems / DB contents / task tables
    (so in particular over the states reached by the histories of Model/History.v, which is where
-   the `_refuted` witnesses live).  [md5], [name_ltb] (string order of task names), [cf] (the
-   file_dep list in the values a task saved) are oracles.  [icurrent] = the code in /repo (HEAD);
+   the `_refuted` witnesses live).  [md5], [name_ltb] (string order of task names), [cv] (the
+   file_dep / calc_dep / task_dep lists in the values a task saved) are oracles.  [icurrent] = the code in /repo (HEAD);
    [ilegacy] = the code before the two repairs this property led to (a4fdc5e: list / info merge what
    the calc_dep tasks saved; 33e694f: info reports an ignored task as ignored).  help / dumpdb /
    tabcompletion are tied by the correspondence check only (harness/c20.py): no transition in the model.
@@ -18,7 +18,10 @@
    Result: partial.  Proved: the frame (DB untouched up to the documented checker-change
    invalidation, no other effect; clean --dry-run: per action of an arbitrary clean list, invoked iff it
    is a python-action taking `dryrun`, independently of its neighbours, no DB record and no file changed); `list --status` = the decision of `run` for every task (calc_dep
-   included: both merge the values saved by the calc_dep tasks); `info`'s status line = that decision
+   included: both merge the values saved by the calc_dep tasks, those of the calc_dep tasks these values name,
+   and so on: the merge is a fix-point that terminates and holds exactly the contributions of the calc_dep
+   tasks reachable from the task, C20_merge_terminates / C20_merge_reaches / C20_merge_closed) an `uptodate` key in the
+   values of a calc_dep task is not modelled); `info`'s status line = that decision
    for ignored tasks, for up-to-date, and in every case when all file dependencies exist; `info`'s
    reasons are exactly the true ones and are empty iff the verdict is up-to-date.
    Still refuted on HEAD (known finding `info-status-differs-missing-file-dep`): `info`'s verdict
@@ -41,28 +44,28 @@ Print Assumptions C20_status_frame.
 (* `list` (any options, any outcome) and `info`: every record of the DB -- in memory and, whatever
    the backend, on disk -- is as before, or is gone and had been written under another checker.
    The file system, the task definitions and the configuration are inputs of the model only. *)
-Theorem C20_list_frame : forall (md5 : N -> N) (v : ver) (name_ltb : name -> name -> bool) (iv : iver) (cf : name -> list file)
+Theorem C20_list_frame : forall (md5 : N -> N) (v : ver) (name_ltb : name -> name -> bool) (iv : iver) (cv : name -> cvals)
     (tb : table) (o : lopts) (c : ck) (fs : fsys) (d : db) (b : backend) (x : name),
-  let d' := persisted b d (lres_db d (list_cmd md5 v name_ltb iv cf tb o c fs d)) in
+  let d' := persisted b d (lres_db d (list_cmd md5 v name_ltb iv cv tb o c fs d)) in
   d' x = d x \/ (d' x = None /\ exists p, r_checker (getrec d x) = Some p /\ p <> c).
 Proof. exact T_list_frame. Qed.
 Print Assumptions C20_list_frame.
 
-Theorem C20_info_frame : forall (md5 : N -> N) (v : ver) (iv : iver) (cf : name -> list file) (tb : table) (pos : list name) (hide : bool)
+Theorem C20_info_frame : forall (md5 : N -> N) (v : ver) (iv : iver) (cv : name -> cvals) (tb : table) (pos : list name) (hide : bool)
     (c : ck) (fs : fsys) (d : db) (b : backend) (x : name),
-  let d' := persisted b d (ires_db d (info_cmd md5 v iv cf tb pos hide c fs d)) in
+  let d' := persisted b d (ires_db d (info_cmd md5 v iv cv tb pos hide c fs d)) in
   d' x = d x \/ (d' x = None /\ exists p, r_checker (getrec d x) = Some p /\ p <> c).
 Proof. exact T_info_frame. Qed.
 Print Assumptions C20_info_frame.
 
 (* without --status / with --no-status the dependency manager is not asked at all; and when no record
    was written under another checker, nothing changes whatever is asked *)
-Theorem C20_no_query_no_change : forall (md5 : N -> N) (v : ver) (name_ltb : name -> name -> bool) (iv : iver) (cf : name -> list file)
+Theorem C20_no_query_no_change : forall (md5 : N -> N) (v : ver) (name_ltb : name -> name -> bool) (iv : iver) (cv : name -> cvals)
     (tb : table) (o : lopts) (pos : list name) (c : ck) (fs : fsys) (d : db),
-  (o_status o = false -> lres_db d (list_cmd md5 v name_ltb iv cf tb o c fs d) = d) /\
-  ires_db d (info_cmd md5 v iv cf tb pos true c fs d) = d /\
+  (o_status o = false -> lres_db d (list_cmd md5 v name_ltb iv cv tb o c fs d) = d) /\
+  ires_db d (info_cmd md5 v iv cv tb pos true c fs d) = d /\
   (no_foreign c d -> forall hide x,
-     lres_db d (list_cmd md5 v name_ltb iv cf tb o c fs d) x = d x /\ ires_db d (info_cmd md5 v iv cf tb pos hide c fs d) x = d x).
+     lres_db d (list_cmd md5 v name_ltb iv cv tb o c fs d) x = d x /\ ires_db d (info_cmd md5 v iv cv tb pos hide c fs d) x = d x).
 Proof. exact T_no_query_no_change. Qed.
 Print Assumptions C20_no_query_no_change.
 
@@ -70,10 +73,10 @@ Print Assumptions C20_no_query_no_change.
    operations of the printed tasks that are not ignored, `info` is one `CheckLog`; these are status
    queries only (no SaveOk / Remove / Ignore / ResetDep / ForgetAll / file operation), and a status
    query leaves the file system, the clock, the definitions and the configured checker alone *)
-Theorem C20_readonly_as_history : forall (md5 : N -> N) (size_of : N -> Z) (v : ver) (iv : iver) (cf : name -> list file) (tb : table)
+Theorem C20_readonly_as_history : forall (md5 : N -> N) (size_of : N -> Z) (v : ver) (iv : iver) (cv : name -> cvals) (tb : table)
     (s : state) (o : lopts) (pl : list ltask) (lines : list lline) (d' : db),
-  (forall t dk, In t pl -> shown_def iv cf tb dk t = s_defs s (l_name t)) ->
-  print_tasks md5 v iv cf tb (s_ck s) (s_fs s) o pl (s_db s) = LOk lines d' ->
+  (forall t dk, In t pl -> shown_def iv cv tb dk t = s_defs s (l_name t)) ->
+  print_tasks md5 v iv cv tb (s_ck s) (s_fs s) o pl (s_db s) = LOk lines d' ->
   let ops := list_ops (s_db s) (o_status o) pl in
   forallb query_op ops = true /\
   s_db (run_from md5 size_of v s ops) = d' /\
@@ -159,25 +162,26 @@ Print Assumptions C20_clean_cmd_cleaned_is_C14.
 (* the task lines `list --status` prints are [status_letters]; every letter is the decision `run`
    takes for that task (I ignored / E dependency error / U up-to-date / R run) in the DB as it is
    when the task is examined -- the initial one up to the documented invalidation -- on the
-   definition `run` uses: the task's own, plus the file_dep saved by its calc_dep tasks (what `run`
-   merges when those tasks are up-to-date).  Holds for the repaired code ([fixCalc]). *)
-Theorem C20_list_agrees : forall (md5 : N -> N) (v : ver) (name_ltb : name -> name -> bool) (iv : iver) (cf : name -> list file)
+   definition `run` uses: the task's own, plus the file_dep saved by its calc_dep tasks -- declared, or
+   named in the values saved by another of its calc_dep tasks, to any depth (C20_merge_reaches) -- which is
+   what `run` merges when those tasks are up-to-date.  Holds for the repaired code ([fixCalc]). *)
+Theorem C20_list_agrees : forall (md5 : N -> N) (v : ver) (name_ltb : name -> name -> bool) (iv : iver) (cv : name -> cvals)
     (tb : table) (o : lopts) (c : ck) (fs : fsys) (d : db) (pl : list ltask) (lines : list lline) (d' : db),
   fixCalc iv = true ->
   print_list name_ltb tb o = POk pl -> o_status o = true ->
-  list_cmd md5 v name_ltb iv cf tb o c fs d = LOk lines d' ->
-  filter is_task_line lines = map (fun x => LTask (fst (fst x)) (snd (fst x))) (status_letters md5 v iv cf tb c fs pl d) /\
-  forall n l dk, In (n, l, dk) (status_letters md5 v iv cf tb c fs pl d) ->
+  list_cmd md5 v name_ltb iv cv tb o c fs d = LOk lines d' ->
+  filter is_task_line lines = map (fun x => LTask (fst (fst x)) (snd (fst x))) (status_letters md5 v iv cv tb c fs pl d) /\
+  forall n l dk, In (n, l, dk) (status_letters md5 v iv cv tb c fs pl d) ->
     (forall x, dk x = d x \/ (dk x = None /\ ck_changed c (getrec d x) = true)) /\
     exists t, In t pl /\ n = l_name t /\
-              l = decision_letter (run_decision md5 v c fs dk n (run_def tb (saved_fd cf dk) t)).
+              l = decision_letter (run_decision md5 v c fs dk n (run_def tb (saved_cv cv dk) t)).
 Proof. exact T_list_agrees. Qed.
 Print Assumptions C20_list_agrees.
 
 (* one task asked about: the letter is the decision in the DB as it is *)
-Theorem C20_list_agrees_one : forall (md5 : N -> N) (v : ver) (iv : iver) (cf : name -> list file) (tb : table) (c : ck) (fs : fsys) (d : db) (t : ltask),
+Theorem C20_list_agrees_one : forall (md5 : N -> N) (v : ver) (iv : iver) (cv : name -> cvals) (tb : table) (c : ck) (fs : fsys) (d : db) (t : ltask),
   fixCalc iv = true ->
-  fst (task_status md5 v iv cf tb c fs d t) = decision_letter (run_decision md5 v c fs d (l_name t) (run_def tb (saved_fd cf d) t)).
+  fst (task_status md5 v iv cv tb c fs d t) = decision_letter (run_decision md5 v c fs d (l_name t) (run_def tb (saved_cv cv d) t)).
 Proof. exact T_list_agrees_one. Qed.
 Print Assumptions C20_list_agrees_one.
 
@@ -218,15 +222,15 @@ Print Assumptions C20_info_agrees_partial.
 (* the status line `info` prints (repaired code) against the decision of `run` on the merged definition:
    ignored iff `run` ignores; up-to-date iff `run` says up-to-date; the same in every case when every
    file dependency exists *)
-Theorem C20_info_cmd_agrees_partial : forall (md5 : N -> N) (v : ver) (iv : iver) (cf : name -> list file) (tb : table)
+Theorem C20_info_cmd_agrees_partial : forall (md5 : N -> N) (v : ver) (iv : iver) (cv : name -> cvals) (tb : table)
     (n : name) (t : ltask) (c : ck) (fs : fsys) (d : db) (st : istatus) (lines : list iline) (rc : Z) (d' : db),
   fixCalc iv = true -> fixIgn iv = true ->
   lookup tb n = Some t ->
-  info_cmd md5 v iv cf tb [n] false c fs d = IOk st lines rc d' ->
-  let x := run_decision md5 v c fs d (l_name t) (run_def tb (saved_fd cf d) t) in
+  info_cmd md5 v iv cv tb [n] false c fs d = IOk st lines rc d' ->
+  let x := run_decision md5 v c fs d (l_name t) (run_def tb (saved_cv cv d) t) in
   (x = DIgnore <-> st = IIgnored) /\
   (x = DUpToDate <-> st = IStatus UpToDate) /\
-  ((forall f, In f (file_dep (run_def tb (saved_fd cf d) t)) -> fs f <> None) -> istatus_decision st = Some x).
+  ((forall f, In f (file_dep (run_def tb (saved_cv cv d) t)) -> fs f <> None) -> istatus_decision st = Some x).
 Proof. exact T_info_cmd_agrees_partial. Qed.
 Print Assumptions C20_info_cmd_agrees_partial.
 
@@ -235,7 +239,7 @@ Print Assumptions C20_info_cmd_agrees_partial.
    dependency error, `info` says "run" (the later `changed_file_dep` overwrites the status set by
    `missing_file_dep`); (2) a dependency deleted, an uptodate item false: `run` executes the task,
    `info` says "error" *)
-Definition nocf : name -> list file := fun _ => [].
+Definition nocf : name -> cvals := fun _ => no_cvals.
 Definition i_tab (s : state) : table :=
   [{| l_name := 7%N; l_private := false; l_subtask_of := None; l_task_dep := []; l_calc_dep := []; l_def := s_defs s 7%N |}].
 Definition d01 : tdef := {| file_dep := [0; 1]%N; targets := []; uptodate := []; act_values := []; act_result := None |}.
@@ -331,14 +335,14 @@ Definition t7 : ltask :=
   {| l_name := 7%N; l_private := false; l_subtask_of := None; l_task_dep := []; l_calc_dep := []; l_def := dep1 |}.
 Definition t8 : ltask :=
   {| l_name := 8%N; l_private := false; l_subtask_of := None; l_task_dep := []; l_calc_dep := [7%N]; l_def := empty_def |}.
-Definition cf7 : name -> list file := fun c => if N.eqb c 7 then [0%N] else [].
+Definition cf7 : name -> cvals := fun c => if N.eqb c 7 then {| cv_file_dep := [0%N]; cv_calc_dep := []; cv_task_dep := [] |} else no_cvals.
 Theorem C20_list_calc_dep_legacy_refuted :
   exists (ops : list op),
     fs_fresh ops = true /\
     let s := run (fun x => x) (fun _ => 4) current ops in
     let tb := [t7; t8] in
     s_defs s 8%N = l_def t8 /\
-    run_decision (fun x => x) current (s_ck s) (s_fs s) (s_db s) 8%N (run_def tb (saved_fd cf7 (s_db s)) t8) = DUpToDate /\
+    run_decision (fun x => x) current (s_ck s) (s_fs s) (s_db s) 8%N (run_def tb (saved_cv cf7 (s_db s)) t8) = DUpToDate /\
     fst (task_status (fun x => x) current ilegacy cf7 tb (s_ck s) (s_fs s) (s_db s) t8) = Some LtR /\
     (exists lines d', info_cmd (fun x => x) current ilegacy cf7 tb [8%N] false (s_ck s) (s_fs s) (s_db s) = IOk (IStatus Run) lines 1 d' /\
                       In INoDeps lines /\ In (IItem KRemoved 0%N) lines) /\
@@ -351,6 +355,73 @@ Proof.
   split; [vm_compute; reflexivity|]. eexists; vm_compute; reflexivity.
 Qed.
 Print Assumptions C20_list_calc_dep_legacy_refuted.
+
+(* ------------------------------------------------------------------ calc_dep: the merge is a fix-point *)
+(* [merged] runs the loop of cmd_base.merge_calc_dep (and of the dispatcher) with one more round than
+   there are tasks: the out-of-fuel value never occurs, whatever the saved values say (chains, diamonds,
+   values naming each other or themselves, names that are not tasks) *)
+Theorem C20_merge_terminates : forall (tb : table) (vals : name -> cvals) (t : ltask), merged tb vals t <> None.
+Proof. exact merged_some. Qed.
+Print Assumptions C20_merge_terminates.
+
+(* the Task object after the merge ([run_task]; its [m_def] is [run_def], the definition of C20_list_agrees
+   and C20_info_cmd_agrees_partial) holds: as calc_dep exactly the names reachable from the task's own calc_dep
+   through the 'calc_dep' lists saved by reachable names that are tasks ([creach]); as file_dep / task_dep its
+   own plus exactly what those reachable tasks saved under 'file_dep' / 'task_dep'; nothing else changes *)
+Theorem C20_merge_reaches : forall (tb : table) (vals : name -> cvals) (t : ltask),
+  let m := run_task tb vals t in
+  merged tb vals t = Some m /\
+  (forall c, In c (m_calc m) <-> creach tb vals t c) /\
+  (forall f, In f (file_dep (m_def m)) <->
+     In f (file_dep (l_def t)) \/ exists c, creach tb vals t c /\ lookup tb c <> None /\ In f (cv_file_dep (vals c))) /\
+  (forall x, In x (m_task_dep m) <->
+     In x (l_task_dep t) \/ exists c, creach tb vals t c /\ lookup tb c <> None /\ In x (cv_task_dep (vals c))) /\
+  targets (m_def m) = targets (l_def t) /\ uptodate (m_def m) = uptodate (l_def t) /\
+  act_values (m_def m) = act_values (l_def t) /\ act_result (m_def m) = act_result (l_def t).
+Proof. exact T_merge_reaches. Qed.
+Print Assumptions C20_merge_reaches.
+
+(* ... and is a fix-point of Task.update_deps: merging the values of any of its calc_dep tasks again adds nothing *)
+Theorem C20_merge_closed : forall (tb : table) (vals : name -> cvals) (t : ltask) (c : name),
+  let m := run_task tb vals t in
+  In c (m_calc m) -> lookup tb c <> None ->
+  (forall c', In c' (m_calc (update_deps m (vals c))) <-> In c' (m_calc m)) /\
+  (forall f, In f (file_dep (m_def (update_deps m (vals c)))) <-> In f (file_dep (m_def m))) /\
+  (forall x, In x (m_task_dep (update_deps m (vals c))) <-> In x (m_task_dep m)).
+Proof. exact T_merge_closed. Qed.
+Print Assumptions C20_merge_closed.
+
+(* a chain with a repeat: task 8 declares calc_dep 7; 7 saved calc_dep [6; 7] and task_dep [5]; 6 saved file_dep [0]
+   and calc_dep [7].  The merge needs two rounds (with fuel for one round and the final test it runs out), and
+   the file_dep that decides the status of 8 is only found in the second: after a successful run with nothing
+   changed since, `run`, `list --status` and `info` say up-to-date, where one pass over task 8's own calc_dep
+   (the values of 7 only) gives a definition on which the verdict is "run" *)
+Definition k6 : ltask :=
+  {| l_name := 6%N; l_private := false; l_subtask_of := None; l_task_dep := []; l_calc_dep := []; l_def := dep1 |}.
+Definition cvch : name -> cvals := fun c =>
+  if N.eqb c 7 then {| cv_file_dep := []; cv_calc_dep := [6; 7]%N; cv_task_dep := [5%N] |}
+  else if N.eqb c 6 then {| cv_file_dep := [0%N]; cv_calc_dep := [7%N]; cv_task_dep := [] |} else no_cvals.
+Example C20_merge_chain_nonvacuous :
+  let tb := [k6; t7; t8] in
+  creach tb cvch t8 6%N /\
+  merged tb cvch t8 = Some {| m_def := dep0; m_calc := [7; 6]%N; m_task_dep := [5%N] |} /\
+  merge_loop 2 tb cvch [] (minit t8) = None /\
+  exists (ops : list op),
+    fs_fresh ops = true /\
+    let s := run (fun x => x) (fun _ => 4) current ops in
+    s_defs s 8%N = l_def t8 /\
+    run_decision (fun x => x) current (s_ck s) (s_fs s) (s_db s) 8%N (run_def tb (saved_cv cvch (s_db s)) t8) = DUpToDate /\
+    fst (task_status (fun x => x) current icurrent cvch tb (s_ck s) (s_fs s) (s_db s) t8) = Some LtU /\
+    (exists d', info_cmd (fun x => x) current icurrent cvch tb [8%N] false (s_ck s) (s_fs s) (s_db s) = IOk (IStatus UpToDate) [] 0 d') /\
+    run_decision (fun x => x) current (s_ck s) (s_fs s) (s_db s) 8%N
+      (m_def (fold_left (fun m c => update_deps m (saved_cv cvch (s_db s) c)) (l_calc_dep t8) (minit t8))) = DRun.
+Proof.
+  cbv zeta. split; [eapply cr_step; [apply cr_own; left; reflexivity|vm_compute; discriminate|left; reflexivity]|].
+  split; [vm_compute; reflexivity|]. split; [vm_compute; reflexivity|].
+  exists [Write 0 0; Write 1 1; SetDef 6 dep1; SaveOk 6; SetDef 7 dep1; SaveOk 7; SetDef 8 dep0; SaveOk 8; SetDef 8 empty_def]%N.
+  split; [reflexivity|]. cbv zeta. split; [reflexivity|]. split; [vm_compute; reflexivity|]. split; [vm_compute; reflexivity|].
+  split; [eexists; vm_compute; reflexivity|]. vm_compute; reflexivity.
+Qed.
 
 (* ------------------------------------------------------------------ non-vacuity *)
 (* a history after which `list --status --all -p --deps` prints I, U, R and E lines, leaves the DB as it
